@@ -122,3 +122,32 @@ func init() {
 		Assumptions: []string{"callee coherence (R-PAIR-P, checked under C20/C06)"},
 	})
 }
+
+func entryRootsFn(p *Prog) []*ssa.Function {
+	roots := p.entryRoots()
+	for _, m := range []string{"Query", "First", "Exists", "Match", "ExistsOrMatch"} {
+		if f := p.ssaFunc(pkgPath, "*Path."+m); f != nil {
+			roots = append(roots, f)
+		}
+	}
+	return roots
+}
+
+var rulePanicExec = rulePanic("R-PANIC-EXEC",
+	"no explicit panic, stdlib Must* call or unchecked type assertion is reachable from Query/First/Exists/Match/ExistsOrMatch unless its block is infeasible for parser-produced paths and documented item types (judged per call context), or the symbol is tabled with a reason",
+	entryRootsFn, "", 8)
+
+func init() {
+	register(rulePanicExec)
+	addProp(&PropSpec{
+		ID:    "C05",
+		Rules: []string{"R-PANIC-EXEC", "R-EXH", "R-ERRSITES", "R-ERRCLASS"},
+		Explanation: "Totality and error classification of execution as shapes of the code. Every explicit panic site and every ErrInvalid construction reachable from the entry points is shown infeasible by an abstract interpretation whose universes are derived from the repository: node shapes per operand slot from the goyacc grammar's actions, enum constants, the 13 documented item types, the 5 datetime types; call sites are expanded three levels up and callbacks stay paired with their call site. Every error that can reach an entry point wraps ErrExecution or is NULL (Exists/Match only).",
+		Decided: []string{"R-PANIC-EXEC: no feasible explicit panic / Must* / unchecked assertion below the entry points",
+			"R-EXH: no feasible ErrInvalid construction for parser-produced paths and documented item types",
+			"R-ERRSITES + R-ERRCLASS: every constructed error wraps an exec sentinel; no foreign or bare error reaches an entry point; NULL only from Exists/Match"},
+		NotDecided:  []string{"implicit panics (nil dereference, index out of range) in general", "purity of the queried value beyond what C19's write census shows", "finiteness of returned numbers (C13/C16)"},
+		Assumptions: []string{"item values have one of the 13 documented dynamic types", "a json.Number holds a syntactically valid JSON number", "ast.LinkNodes chains nodes[i].next = nodes[i+1] (its documented contract)", "values of enum types are declared constants"},
+		Trusted:     append(append([]string{}, baseTrusted...), "goyacc (x/tools v0.29.0) reproduces the rule numbering of the compiled grammar.go"),
+	})
+}
